@@ -105,6 +105,10 @@ def reach():
                 continue
             if k == "probe.fork_handlers_run":
                 continue  # nitro registers no fork handlers; counts what a changed sink registers
+            if k in ("fault.sem.eintr", "probe.spinning_thread_preempted"):
+                continue  # fire only if the code under test uses semaphores / spins on an atomic (nitro does neither; mutants and benign variants do)
+            if k == "probe.run_with_more_than_256_threads" and prop != "C09":
+                continue  # crowd runs belong to C09
             if k == "fault.lock.timeout":
                 continue  # fires only if the code under test uses timed locks (nitro does not; mutants/benign variants do)
             if prop == "C09" and k == "probe.records_through_sequence_sink":
